@@ -23,7 +23,7 @@ for p in props:
 m = dict(version=1,
          setup_cmd="./setup.sh",
          hooks=dict(guard="ESR_VERIF", enable="ESR_VERIF=1 ESR_VERIF_BASIS='<json basis>' and run name verif_* (set by the harness; no build step, ESR is run from a scratch copy of /repo/esr on the MPI stand-in)",
-                    baseline_off_cmd="cd /repo && env -u ESR_VERIF /venv/bin/python -m pytest -ra -q -p no:cacheprovider --timeout=900 --continue-on-collection-errors tests/test_printer.py",
+                    baseline_off_cmd="cd /repo && env -u ESR_VERIF /venv/bin/python -m pytest -ra -q -p no:cacheprovider --timeout=900 --continue-on-collection-errors",
                     source_commits=HOOK_COMMITS, add_only=True),
          engines=[dict(name="tlc", path="/verif/spec", serves_properties=sorted(CHECKS),
                        kind_free_text="explicit TLA+ specification (spec/*.tla) model-checked with TLC 1.8 and bound to the implementation: TLC-enumerated states/behaviours replayed into the real code, observations of the real code judged by TLC (one state per recorded case / trace validation)")],
